@@ -1,6 +1,7 @@
 """Canonical forms of every report of a System, and twin cases (two reports that must agree) for
 spec/Twin.tla.  Canonicalisation only removes what the properties declare irrelevant: row order,
 node numbering, the order of sibling lists in the save() document."""
+from decwire import excname
 import contextlib
 import hashlib
 import io
@@ -70,7 +71,7 @@ def _try(fn):
         if isinstance(e, HarnessError) or raised_by_harness(e):
             # canonicalising a report is the harness' business: an error there is a machinery failure, not "the report raised"
             raise HarnessError("%s: %s" % (type(e).__name__, e)) from e
-        return None, type(e).__name__
+        return None, excname(e)
 
 
 def all_reports(s, solve_kw=None):
@@ -304,7 +305,7 @@ def report_case(s, cid, what):
                 # reading a report is the harness' business: an error there is a machinery failure, not "the report raised"
                 raise HarnessError("%s: %s: %s" % (key, type(e).__name__, e)) from e
             case[key] = dflt
-            case["exc"] += "%s:%s " % (key, type(e).__name__)
+            case["exc"] += "%s:%s " % (key, excname(e))
     get("params", lambda: params_wire(s.params(limits=True)), [])
     get("limits", lambda: params_wire(s.limits(), with_params=False), [])
     get("phases", lambda: phases_wire(s.phases()), {"isnone": True, "hasdomain": False, "rows": []})
